@@ -257,6 +257,8 @@ static Verdict run_case(const LCase &c) {
       if (!x.alive || x.user_refs == 0) break;
       pixman_transform_t t;
       pixman_transform_init_scale(&t, 65536 + m.a * 1000, 65536);
+      // back to "no transform" either way: NULL, or an explicit identity matrix (seeded C20t)
+      if (m.a == 1) pixman_transform_init_identity(&t);
       if (!pixman_image_set_transform(x.im, m.a == 0 ? nullptr : &t)) v.fail(fmt("step %d: set_transform failed", step));
       break;
     }
@@ -264,6 +266,13 @@ static Verdict run_case(const LCase &c) {
       if (!x.alive || x.user_refs == 0) break;
       pixman_fixed_t params[11] = {3 << 16, 3 << 16, 0, 0, 0, 0, 65536, 0, 0, 0, 0};
       pixman_bool_t ok;
+      if (m.a == 7) {
+        // a parameter count whose byte size does not fit: refused before anything is allocated or read; the image keeps
+        // (and later releases, once) whatever kernel it had (seeded C20v)
+        if (pixman_image_set_filter(x.im, PIXMAN_FILTER_CONVOLUTION, params, 0x20000000)) v.fail(fmt("step %d: set_filter accepted 2^29 parameters", step));
+        v.label("set_filter_refused");
+        break;
+      }
       if (m.a % 3 == 0) ok = pixman_image_set_filter(x.im, PIXMAN_FILTER_CONVOLUTION, params, 11);
       else if (m.a % 3 == 1) ok = pixman_image_set_filter(x.im, PIXMAN_FILTER_BILINEAR, nullptr, 0);
       else {
